@@ -122,7 +122,10 @@ def run(ck):
     from harness import bigvals
     big = bigvals.events(ck, (max(e["id"] for e in evs) + 1) if evs else 0, quick)
     evs += big
-    ck.part("huge_constants", events=len(big), ints=len(bigvals.INTS), rationals=len(bigvals.RATS))
+    wide = bigvals.bv_events(ck, max(e["id"] for e in evs) + 1, quick)
+    evs += wide
+    ck.part("huge_constants", events=len(big), ints=len(bigvals.INTS), rationals=len(bigvals.RATS), wide_bv_events=len(wide),
+            wide_bv_widths=[32, 33, 64, 65, 128])
     verdicts, st = tlc.validate_events("Trace_Pure", evs, constants={"Seed": ck.seed % 1000, "Cap": 64})
     ck.add_tlc(st)
     byid = {e["id"]: e for e in evs}
@@ -131,6 +134,10 @@ def run(ck):
         if e["kind"] == "bigarith":
             for cl in fails:
                 ck.violation({"kind": "bigarith", "clause": cl, "sort": e["sort"], "op": e["op"], "exc": e["exc"].split(":")[0]}, {"event": e})
+            continue
+        if e["kind"] == "bigbv":
+            for cl in fails:
+                ck.violation({"kind": "bigbv", "clause": cl, "op": e["op"], "w": e["w"], "exc": e["exc"].split(":")[0]}, {"event": e})
             continue
         for cl in fails:
             ck.violation({"kind": "getvalue", "clause": cl, "shape": shape(e["f"]), "exc": e["exc"],
